@@ -42,6 +42,10 @@ func (c *compiler) compile() (string, error) {
 		var res interface{}
 		var err error
 
+		// the statement blamed for an error is the innermost one evaluated
+		// within this top-level statement, not one left over from an earlier one
+		c.curStmt = nil
+
 		switch node := stmt.(type) {
 		case *ast.ReturnStatement:
 			res, err = c.evalReturnStatement(node)
